@@ -66,6 +66,10 @@ func (cmd *search) Execute(_ context.Context, f *flag.FlagSet, _ ...interface{})
 		return cmd.Fail("failed to evaluate %q: %s", expr, err)
 	}
 
+	if n.Sign() < 1 {
+		return cmd.Fail("target must be a positive integer: got %s", n)
+	}
+
 	cmd.Log.Printf("hex: %x", n)
 	cmd.Log.Printf("dec: %s", n)
 
